@@ -9,6 +9,8 @@
  *   VSHIM_CRASHFLAG=path      created at the crash; every other process dies at its next mutating call
  *   VSHIM_SIGNAL=key:k:signo  process `key` receives signal signo just before its k-th mutating call (raise(): the program's own
  *                             handler runs at that instant, e.g. qmail-queue's 24 h alarm)
+ *   VSHIM_DNS=dir              res_query()/res_search() answer from files: dir/<type>.<name lower-cased> holds the raw DNS response, a file
+ *                             dir/<type>.<name>.err holds the h_errno value to fail with; no file = HOST_NOT_FOUND (no packet leaves the box)
  *   VSHIM_SWAPOPEN=key|substr|src  right after the first successful open() of a path containing `substr` the file `src` is renamed over
  *                             that path - what another process could do between this program's open() and its next system call
  *   VSHIM_PAUSE=key|substr|n  (driven programs only) just before the n-th open() of a path containing `substr` the process reports
@@ -50,6 +52,7 @@
 #include <sys/un.h>
 #include <sys/wait.h>
 #include <sys/syscall.h>
+#include <resolv.h>
 
 extern char *program_invocation_short_name;
 
@@ -865,6 +868,42 @@ pid_t fork(void)
     }
   }
   return r;
+}
+
+/* ------------------------------------------------------------------ DNS answers from files */
+#include <netdb.h>
+static int fake_dns(const char *name, int type, unsigned char *ans, int anslen)
+{
+  const char *dir = getenv("VSHIM_DNS"); char p[900], nm[300]; int fd, n; size_t i; REAL(open); REAL(read); REAL(close);
+  for (i = 0; name[i] && i + 1 < sizeof nm; ++i) nm[i] = (name[i] >= 'A' && name[i] <= 'Z') ? name[i] + 32 : (name[i] == '/' ? '_' : name[i]);
+  nm[i] = 0;
+  while (i > 0 && nm[i - 1] == '.') nm[--i] = 0;
+  snprintf(p, sizeof p, "%s/%d.%s.err", dir, type, nm);
+  in_shim++;
+  fd = real_open(p, O_RDONLY);
+  if (fd >= 0) { char b[16]; n = real_read(fd, b, sizeof b - 1); real_close(fd); in_shim--; b[n > 0 ? n : 0] = 0; h_errno = atoi(b); tr("dns\t%d\t%s\t-1\t%d", type, nm, h_errno); return -1; }
+  snprintf(p, sizeof p, "%s/%d.%s", dir, type, nm);
+  fd = real_open(p, O_RDONLY);
+  if (fd < 0) { in_shim--; h_errno = HOST_NOT_FOUND; tr("dns\t%d\t%s\t-1\t%d", type, nm, h_errno); return -1; }
+  n = real_read(fd, ans, anslen);
+  real_close(fd);
+  in_shim--;
+  tr("dns\t%d\t%s\t%d\t0", type, nm, n);
+  return n;
+}
+
+int res_query(const char *name, int class, int type, unsigned char *ans, int anslen)
+{
+  REAL(res_query); init();
+  if (!getenv("VSHIM_DNS")) return real_res_query(name, class, type, ans, anslen);
+  return fake_dns(name, type, ans, anslen);
+}
+
+int res_search(const char *name, int class, int type, unsigned char *ans, int anslen)
+{
+  REAL(res_search); init();
+  if (!getenv("VSHIM_DNS")) return real_res_search(name, class, type, ans, anslen);
+  return fake_dns(name, type, ans, anslen);
 }
 
 int socket(int d, int t, int p)
